@@ -518,6 +518,11 @@ TRANSPARENT_CALLS = {
     'std::pin::Pin::<Ptr>::as_mut': 0,
     'std::pin::Pin::<Ptr>::new_unchecked': 0,
     'std::pin::Pin::<Ptr>::new': 0,
+    'std::pin::Pin::<Ptr>::into_inner_unchecked': 0,
+    'std::pin::Pin::<Ptr>::get_unchecked_mut': 0,
+    'std::pin::Pin::<Ptr>::get_mut': 0,
+    'std::pin::Pin::<Ptr>::as_ref': 0,
+    'std::pin::Pin::<Ptr>::get_ref': 0,
     'std::ptr::NonNull::<T>::as_ptr': 0,
     'std::ptr::NonNull::<T>::as_ref': 0,
     'std::ptr::NonNull::<T>::as_mut': 0,
